@@ -126,6 +126,8 @@ func runC02(ctx *Ctx) {
 		ch.AmbrDL = []int64{1000000000, 0, 139, 4000000000000}[c.Pick("AMBR-DL", 4)]
 		ch.NgKSI = byte(c.Pick("ngKSI", 7))
 		ch.AcceptOpt = uint(c.Pick("accept+5GSM-cause", 2))
+		// Session-AMBR of the accept in other units than 1 Mbps (TS 24.501 9.11.4.14: Kbps ... Pbps, DL and UL apart)
+		ch.SessAmbr = [][]byte{nil, {0x0b, 0x00, 0x02, 0x0b, 0x00, 0x02}, {0x01, 0xff, 0xff, 0x06, 0x00, 0x01}, {0x10, 0x00, 0x01, 0x03, 0x00, 0x64}, {0x19, 0x00, 0x01, 0x19, 0x00, 0x01}}[c.Pick("session-AMBR-units", 5)]
 		pi := n2imsis[c.Pick("imsi/plmn", len(n2imsis))]
 		emu.IMSI, emu.MCC, emu.MNC = pi.imsi, pi.mcc, pi.mnc
 		acfg.IMSI, acfg.MCC, acfg.MNC = pi.imsi, pi.mcc, pi.mnc
@@ -146,7 +148,7 @@ func runC02(ctx *Ctx) {
 	r.Set("traces_validated_against_impl", st.runs)
 	r.Sample("counts(reg,pdu,svc,rel,dereg)=[2 1 2 0 2]: UE0 registers, establishes, requests service, deregisters; UE1 registers, deregisters")
 	r.Sample("assigned values on counts (2,2,2,2,2): UE0-IP=3 (10.0.41.41), AMF-UE-NGAP-ID-base=6 (2^40-3)")
-	r.Rule = fmt.Sprintf("real emulator process x reference AMF/SMF model: (1) the full product of the five repetition counts in {0..%d}^5 (%d vectors, so every clamp and 'count larger than the registered UEs' case) plus vectors with 16, 20 UEs and unequal counts; (2) every vector with <=2 deviations over network-assigned values (UE IPv4, TEID, UPF IPv4 per UE incl. octets equal to IEIs, AMF-UE-NGAP-ID base up to 2^40-3 and step, QoS-rules length, AMBR, ngKSI, IMSI/PLMN shape) on counts (2,2,2,2,2); (3) in-process NGSetup+Register+EstablishPDU for the product of address/TEID alphabets: returned (UE IP, TEID, UPF IP) == assigned; "+
+	r.Rule = fmt.Sprintf("real emulator process x reference AMF/SMF model: (1) the full product of the five repetition counts in {0..%d}^5 (%d vectors, so every clamp and 'count larger than the registered UEs' case) plus vectors with 16, 20 UEs and unequal counts; (2) every vector with <=2 deviations over network-assigned values (UE IPv4, TEID, UPF IPv4 per UE incl. octets equal to IEIs, AMF-UE-NGAP-ID base up to 2^40-3 and step, QoS-rules length, AMBR, Session-AMBR units and values of the accept, ngKSI, IMSI/PLMN shape) on counts (2,2,2,2,2); (3) in-process NGSetup+Register+EstablishPDU for the product of address/TEID alphabets: returned (UE IP, TEID, UPF IP) == assigned; "+
 		"oracle = the model accepts every message in its state (prerequisites, ids, PSI equal in 5GSM header / UL NAS TRANSPORT / NGAP response and within 1..15, distinct SUPIs, COUNT never reused and +1, MACs), final state of every UE as the count vector dictates, exit 0 with the banner", maxc, total)
 	r.Assume("the reference AMF identifies the UE of a Service Request by RAN-UE-NGAP-ID and MAC, keeps the AMF-UE-NGAP-ID across it and does not check the hard-coded 5G-S-TMSI / ngKSI (not among the values the property enumerates)",
 		"the AMF includes the UE's active PDU session in the InitialContextSetupRequest that answers a Service Request", "time shim as C01")
@@ -198,6 +200,7 @@ func c02inProcess(ctx *Ctx) {
 					// changes only then)
 					ip2, teid2, upf2 := []byte{10, 60, 0, 77}, []byte{0x0a, 0x0b, 0x0c, 0x0d}, []byte{10, 200, 200, 177}
 					ch.UEIP, ch.TEID, ch.UPFIP, ch.QosRulesLen = [][]byte{ip, ip2}, [][]byte{teid, teid2}, [][]byte{upf, upf2}, q
+					ch.SessAmbr = [][]byte{nil, {0x0b, 0x00, 0x02, 0x0b, 0x00, 0x02}, {0x01, 0xff, 0xff, 0x06, 0x00, 0x01}, {0x29, 0x00, 0x01, 0x03, 0x00, 0x64}}[item%4]
 					a := refamf.New(acfg, ch, codec)
 					fds, err := syscall.Socketpair(syscall.AF_UNIX, syscall.SOCK_SEQPACKET, 0)
 					if err != nil {
